@@ -134,10 +134,7 @@ def selftest(ctx, traces, val):
 
 def run(ctx):
     inputs, gen_stats = CT.generate(ctx, profile="lossless")
-    traces = CT.record_all(ctx, inputs)
-    val = CT.validate(ctx, traces, CLAUSES)
-    report(ctx, val)
-    n = selftest(ctx, traces, val)
+    traces, val, n = CT.process(ctx, inputs, CLAUSES, lambda v: report(ctx, v), selftest=lambda tr, v: selftest(ctx, tr, v))
     lossless = [t for t in traces if t["lossless"] and t["snaps"]]
     big = sum(1 for t in lossless if any(c == "Table" for c in t["snaps"][0]["cls"]))
     shared.evidence(ctx, inputs, gen_stats, traces, val, "C07 clauses apply to the %d traces inside the lossless domain." % len(lossless),
